@@ -518,5 +518,113 @@ impl<A, D: Dimension> ArrayN<A, D> {
 //@end
 }
 
+impl<A, D: Dimension> ArrayN<A, D> {
+//@extract file=src/summary_statistics/means.rs impl=SummaryStatisticsExt:ArrayBase fn=harmonic_mean id=harmonic_mean tags=C06,C17 body_tags=C06
+//@sig
+    fn harmonic_mean(&self) -> (r: Result<A, MinMaxError>)
+    where
+        A: Float + FromPrimitive,
+//@spec
+        requires real_model::<A>(), real_from_usize::<A>(),
+            forall|i: int| 0 <= i < self@.len() ==> (#[trigger] self@[i]).val() != 0real,
+        ensures
+            self@.len() == 0 ==> r matches Err(MinMaxError::EmptyInput), // [C06,C17]
+            self@.len() > 0 ==> r is Ok, // [C06,C17]
+            // the reciprocal of the mean of the reciprocals
+            ({ let rec = Seq::new(self@.len(), |i: int| 1real / self@[i].val());
+               self@.len() > 0 && mean_def(rec) != 0real ==> r->Ok_0.val() == 1real / mean_def(rec) }), // [C06]
+//@closure 0
+|x: &A| -> (y: A) ensures (*x).val() != 0real ==> y.val() == 1real / (*x).val()
+//@closure 1
+|x: A| -> (y: A) ensures x.val() != 0real ==> y.val() == 1real / x.val()
+//@at entry
+        proof {
+            let rec = Seq::new(self@.len(), |i: int| 1real / self@[i].val());
+            assert forall|m: ArrayN<A, D>| m@.len() == self@.len() && (forall|k: int| 0 <= k < self@.len() ==> (#[trigger] m@[k]).val() == 1real / self@[k].val()) implies #[trigger] vals(m@) == rec by {
+                assert(vals(m@) =~= rec);
+            }
+        }
+//@end
+
+//@extract file=src/summary_statistics/means.rs impl=SummaryStatisticsExt:ArrayBase fn=geometric_mean id=geometric_mean tags=C06,C17 body_tags=C06
+//@sig
+    fn geometric_mean(&self) -> (r: Result<A, MinMaxError>)
+    where
+        A: Float + FromPrimitive,
+//@spec
+        requires real_model::<A>(), real_from_usize::<A>(),
+            forall|i: int| 0 <= i < self@.len() ==> (#[trigger] self@[i]).fin() && self@[i].val() > 0real,
+        ensures
+            self@.len() == 0 ==> r matches Err(MinMaxError::EmptyInput), // [C06,C17]
+            self@.len() > 0 ==> r is Ok, // [C06,C17]
+            // exp of the mean of the logarithms
+            ({ let lns = Seq::new(self@.len(), |i: int| ln_r(self@[i].val()));
+               self@.len() > 0 ==> r->Ok_0.val() == exp_r(mean_def(lns)) }), // [C06]
+//@closure 0
+|x: &A| -> (y: A) ensures (*x).fin() && (*x).val() > 0real ==> y.val() == ln_r((*x).val())
+//@closure 1
+|x: A| -> (y: A) ensures y.val() == exp_r(x.val())
+//@at entry
+        proof {
+            let lns = Seq::new(self@.len(), |i: int| ln_r(self@[i].val()));
+            assert forall|m: ArrayN<A, D>| m@.len() == self@.len() && (forall|k: int| 0 <= k < self@.len() ==> (#[trigger] m@[k]).val() == ln_r(self@[k].val())) implies #[trigger] vals(m@) == lns by {
+                assert(vals(m@) =~= lns);
+            }
+        }
+//@end
+}
+
+impl<A, D: Dimension> ArrayN<A, D> {
+//@extract file=src/summary_statistics/means.rs impl=SummaryStatisticsExt:ArrayBase fn=weighted_sum_axis id=weighted_sum_axis tags=C06,C17,C18 body_tags=C06
+//@sig
+    fn weighted_sum_axis(&self, axis: Axis, weights: &ArrayN<A, Ix1>) -> (r: Result<ArrayN<A, D::Smaller>, MultiInputError>)
+    where
+        A: Float,
+        D: RemoveAxis,
+//@spec
+        requires real_model::<A>(), axis.0 < self.shape_spec().len(),
+        ensures
+            self.shape_spec()[axis.0 as int] != weights@.len() ==> r is Err, // [C06,C17] (also for empty data: the sum-type routine only compares lengths)
+            self.shape_spec()[axis.0 as int] == weights@.len() ==> r is Ok && r->Ok_0@.len() == self.lanes(axis.0 as int).len(), // [C06,C17]
+            // entry j is the weighted sum of lane j with the same weights, data and weights paired by logical index
+            self.shape_spec()[axis.0 as int] == weights@.len() ==> forall|j: int| 0 <= j < self.lanes(axis.0 as int).len() ==>
+                (#[trigger] r->Ok_0@[j]).val() == wpsum(vals(self.lanes(axis.0 as int)[j]), vals(weights@), 1, weights@.len() as int), // [C06,C18]
+//@rename_call iter verif_iter
+//@closure 0
+|lane: ArrayN<A, Ix1>| -> (v: A) requires lane@.len() == weights@.len() ensures v.val() == wpsum(vals(lane@), vals(weights@), 1, weights@.len() as int)
+//@closure 1
+|acc: A, d_ref: &A, w_ref: &A| -> (o: A) ensures o.val() == acc.val() + (*d_ref).val() * (*w_ref).val()
+let d = *d_ref; let w = *w_ref;
+//@at entry
+        proof { assert(lawful_clone::<usize>()); axiom_lane_len(self, axis.0 as int); }
+//@at after_call fold 0
+            proof {
+                let xs = vals(lane@); let ws = vals(weights@); let n = ws.len() as int;
+                let accs = choose|accs: Seq<A>| #[trigger] accs.len() == n + 1 && accs[0] == A::zero_spec() && accs[n] == __r
+                    && forall|k: int| 0 <= k < n ==> (#[trigger] accs[k + 1]).val() == accs[k].val() + xs[k] * ws[k];
+                lemma_trace_wsum(accs, xs, ws, n);
+            }
+//@end
+
+//@extract file=src/summary_statistics/means.rs impl=SummaryStatisticsExt:ArrayBase fn=weighted_mean_axis id=weighted_mean_axis tags=C06,C17,C18 body_tags=C06
+//@sig
+    fn weighted_mean_axis(&self, axis: Axis, weights: &ArrayN<A, Ix1>) -> (r: Result<ArrayN<A, D::Smaller>, MultiInputError>)
+    where
+        A: Float,
+        D: RemoveAxis,
+//@spec
+        requires real_model::<A>(), axis.0 < self.shape_spec().len(),
+        ensures
+            self@.len() == 0 ==> r matches Err(MultiInputError::EmptyInput), // [C06,C17]
+            self@.len() > 0 && self.shape_spec()[axis.0 as int] != weights@.len() ==> r is Err, // [C06,C17]
+            self@.len() > 0 && self.shape_spec()[axis.0 as int] == weights@.len() ==> r is Ok && r->Ok_0@.len() == self.lanes(axis.0 as int).len(), // [C06,C17]
+            // entry j is the weighted sum of lane j divided by the sum of the weights
+            self@.len() > 0 && self.shape_spec()[axis.0 as int] == weights@.len() && rsum(vals(weights@)) != 0real ==> forall|j: int| 0 <= j < self.lanes(axis.0 as int).len() ==>
+                (#[trigger] r->Ok_0@[j]).val() == wpsum(vals(self.lanes(axis.0 as int)[j]), vals(weights@), 1, weights@.len() as int) / rsum(vals(weights@)), // [C06,C18]
+//@closure 0
+|v: A| -> (o: A) ensures weights_sum.val() != 0real ==> o.val() == v.val() / weights_sum.val()
+//@end
+}
+
 } // verus!
 fn main() {}
